@@ -22,7 +22,14 @@ impl output line:  <oracle> # <per chunking, ' | ' separated>
                the entries returned after its registration
           !AL  an entry returned by an earlier call no longer says what it said when it was returned (header, raw bytes, offset,
                payload field values re-read after later calls)
-          !ID  an entry shares a mutable object with an earlier entry, or with the decoder's own buffer
+          !ID  an entry shares a mutable object with an earlier entry, with the decoder's own buffer or with an object the caller passed in
+          !IN  the caller's buffer (bytearray / memoryview argument) was modified by on_data
+          !SD  a second decoder alive at the same time (different settings, fed a different stream between the calls) lost or gained messages
+          !RX  after an exception raised by a user callback had propagated out of on_data, later calls did not return the
+               remaining messages (from the interrupted one, or from the one after it, onwards) / raised again
+    on_data argument forms rotate per call: bytes, bytearray, memoryview of bytes, memoryview of a bytearray, and the int form for
+    single bytes; caller-owned buffers are overwritten after the call (results handed out earlier are re-read after every call);
+    the list object returned by on_data is mutated after it has been read.
           !SH  the returned entry does not have the documented shape
         a call that raised ends the text with  !EXC:<ExceptionType>
     A text (private attributes, advisory): per call  processed,len(buffer),header-is-None,msg_len,last_seq|-;   ('?' = attribute missing)
@@ -183,6 +190,75 @@ def snapshot(r, rb, ro, full):
     return cheap, digest(canon(contents if not isinstance(contents, (bytes, bytearray)) else bytes(contents)))[:8]
 
 
+class InjectedCallbackFailure(Exception):
+    pass
+
+
+_shadow = {}
+
+
+def shadow_stream():
+    """a second, unrelated stream for a concurrently living decoder: valid messages of several classes with '.'-free junk
+    between them; returns (bytes, [(end offset, type, sequence)])"""
+    if not _shadow:
+        enc = FusionEngineEncoder()
+        enc.sequence_number = 77000
+        parts = []
+        for t, cls in sorted(message_type_to_class.items(), key=lambda kv: int(kv[0])):
+            try:
+                parts.append(bytes(enc.encode_message(cls())))
+            except Exception:
+                continue
+            if len(parts) >= 9:
+                break
+        stream = b''
+        for k, m in enumerate(parts):
+            stream += bytes((37 * k + j) % 200 + 50 for j in range(k % 4 * 9)) .replace(b'.', b'/') + m
+        dec = FusionEngineDecoder(return_offset=True, warn_on_error='none')
+        exp = [(off + 24 + h.payload_size_bytes, int(h.message_type), h.sequence_number) for h, _, off in dec.on_data(stream)]
+        _shadow['v'] = (stream, exp)
+        _shadow['maxe'] = MessageHeader._MAX_EXPECTED_SIZE_BYTES
+    return _shadow['v']
+
+
+def key_of(r, rb, ro):
+    h = r[0]
+    return (int(h.message_type), h.sequence_number, h.crc, bytes(r[2]) if rb else None, r[-1] if ro else None)
+
+
+def callback_failure_run(stream, sizes, maxp, rb, ro, opts, k):
+    """same chunking, one catch-all callback raises at its k-th invocation: returns (index of the raising call or None,
+    entries returned by later calls, unexpected exception name or None, whether a later non-empty call existed)"""
+    woe, gap, unrec = opts.split(',')
+    dec = FusionEngineDecoder(max_payload_len_bytes=maxp, return_bytes=rb, return_offset=ro, warn_on_error=woe,
+                              warn_on_gap=gap == '1', warn_on_unrecognized=unrec == '1')
+    count = [0]
+    boom = InjectedCallbackFailure('callback failure injected by the harness')
+
+    def raiser(*a):
+        count[0] += 1
+        if count[0] == k:
+            raise boom
+    dec.add_callback(None, lambda *a: None)
+    dec.add_callback(None, raiser)
+    pos, raised_at, after, later_nonempty = 0, None, [], False
+    for i, n in enumerate(sizes):
+        chunk = bytes(stream[pos:pos + n]); pos += n
+        try:
+            res = dec.on_data(chunk)
+        except InjectedCallbackFailure as e:
+            if e is boom and raised_at is None:
+                raised_at = i
+                continue
+            return raised_at, after, 'InjectedCallbackFailure-again', later_nonempty
+        except BaseException as e:
+            return raised_at, after, type(e).__name__, later_nonempty
+        if raised_at is not None:
+            later_nonempty = later_nonempty or n > 0
+            after += [key_of(r, rb, ro) for r in res]
+    return raised_at, after, None, later_nonempty
+
+
 def run_chunking(stream, sizes, maxp, rb, ro, opts='likely,0,0'):
     woe, gap, unrec = opts.split(',')
     dec = FusionEngineDecoder(max_payload_len_bytes=maxp, return_bytes=rb, return_offset=ro, warn_on_error=woe,
@@ -221,19 +297,68 @@ def run_chunking(stream, sizes, maxp, rb, ro, opts='likely,0,0'):
             register(t)
     late_points = {0, len(sizes) // 2, len(sizes) - 2}     # after these calls more callbacks are registered
     ninv_seen_box = [0]
+    salt = len(stream) + 3 * len(sizes)
+    held_args, foreign_ids = [], set()          # objects passed to on_data stay alive; results must not refer to them
+    use_shadow = salt % 6 == 0 and len(sizes) > 1 and MessageHeader._MAX_EXPECTED_SIZE_BYTES == _shadow.get('maxe')
+    if use_shadow:
+        sh_stream, sh_exp = shadow_stream()
+        sh_dec = FusionEngineDecoder(max_payload_len_bytes=4096, return_bytes=not rb, return_offset=not ro,
+                                     warn_on_error='all' if woe != 'all' else 'none', warn_on_gap=True, warn_on_unrecognized=True)
+        sh_pos, sh_got, sh_bad = 0, [], False
     kept = []                                   # [entry, cheap snapshot, payload digest, call index] of everything returned so far
     seen_ids = {}
     R, A = [], []
     pos = 0
     for i, k in enumerate(sizes):
         chunk = bytes(stream[pos:pos + k]); pos += k
+        if use_shadow and not sh_bad:
+            # another decoder, other settings, other stream, fed between the calls of the decoder under test
+            step = 5 + (i * 7 + salt) % 23
+            try:
+                if sh_pos >= len(sh_stream):
+                    if [(t_, q_) for _, t_, q_ in sh_exp] != sh_got:
+                        sh_bad = True
+                    sh_dec = FusionEngineDecoder(max_payload_len_bytes=4096, return_bytes=not rb, return_offset=not ro, warn_on_error='none')
+                    sh_pos, sh_got = 0, []
+                for r_ in sh_dec.on_data(sh_stream[sh_pos:sh_pos + step]):
+                    sh_got.append((int(r_[0].message_type), r_[0].sequence_number))
+                sh_pos = min(len(sh_stream), sh_pos + step)
+                if [(t_, q_) for e_, t_, q_ in sh_exp if e_ <= sh_pos] != sh_got:
+                    sh_bad = True
+            except BaseException:
+                sh_bad = True
+        # argument form: bytes / bytearray / memoryview(bytes) / memoryview(bytearray) / int for a single byte
+        backing = None
+        if len(chunk) == 1 and (i + salt) % 2 == 1:
+            arg = chunk[0]
+        else:
+            f = (i + salt) % 5
+            if f == 1:
+                arg = backing = bytearray(chunk)
+            elif f == 2:
+                arg = memoryview(chunk)
+            elif f == 3:
+                backing = bytearray(chunk); arg = memoryview(backing)
+            else:
+                arg = chunk
+            held_args.append(arg); foreign_ids.add(id(arg))
+            if backing is not None:
+                held_args.append(backing); foreign_ids.add(id(backing))
         try:
-            # a one-byte chunk is passed as an int every other time (the documented "single byte" form of on_data)
-            res = dec.on_data(chunk[0] if (len(chunk) == 1 and i % 2 == 1) else chunk)
+            res = dec.on_data(arg)
         except BaseException as e:
             R.append('%d:!EXC:%s;' % (i, type(e).__name__))
             break
         marks_call = ''
+        if backing is not None:
+            if bytes(backing) != chunk:
+                marks_call += '!IN'
+            backing[:] = b'\xaa' * len(backing)          # the caller reuses its buffer; nothing handed out may change
+        if not isinstance(res, list):
+            marks_call += '!SH'
+            res = list(res)
+        res_obj, res = res, list(res)
+        res_obj.append('mutated by the caller')            # the returned list belongs to the caller
         # callbacks against the return value of this call
         inv_before, ninv_seen = ninv_seen_box[0], ninv[0]
         ninv_seen_box[0] = ninv_seen
@@ -271,7 +396,7 @@ def run_chunking(stream, sizes, maxp, rb, ro, opts='likely,0,0'):
                 if rb:
                     mutable_ids(r[2], ids)
                 buf_now = getattr(dec, '_buffer', None)
-                if any(k_ in seen_ids for k_ in ids) or (buf_now is not None and id(buf_now) in ids):
+                if any(k_ in seen_ids or k_ in foreign_ids for k_ in ids) or (buf_now is not None and id(buf_now) in ids):
                     marks += '!ID'
                 seen_ids.update(ids)
                 kept.append([r, cheap, pv, i])
@@ -292,6 +417,21 @@ def run_chunking(stream, sizes, maxp, rb, ro, opts='likely,0,0'):
             register(None)
             for t in cand_types[:8]:
                 register(t)
+    tail = ''
+    if use_shadow and sh_bad:
+        tail += '!SD'
+    # a user callback that raises once: the decoder must stay usable (same entries from the interrupted message, or the
+    # one after it, onwards; no further exception)
+    if kept and len(sizes) > 1 and salt % 7 == 0 and '!' not in ''.join(R):
+        k = 1 + salt % len(kept)
+        raised_at, after, exc, later = callback_failure_run(stream, sizes, maxp, rb, ro, opts, k)
+        allk = [key_of(e[0], rb, ro) for e in kept]
+        if exc is not None or raised_at is None:
+            tail += '!RX'
+        elif later and after != allk[k - 1:] and after != allk[k:]:
+            tail += '!RX'
+    if tail:
+        R.append('%d:%s;' % (len(sizes), tail))
     return ''.join(R), ''.join(A)
 
 
@@ -318,6 +458,7 @@ def d8(s):
 def impl_main():
     _imports()
     default_maxe = MessageHeader._MAX_EXPECTED_SIZE_BYTES
+    shadow_stream()             # built under the unpatched constants
     for line in sys.stdin:
         w = line.split()
         if not w:
